@@ -19,7 +19,7 @@ func init() {
 			"R3 every value returned by a call that yields a server.UDPConn is closed, stored in the session's socket field or returned on every path, the socket field only receives such a call's result and the dial closure returns nothing but the socket it just opened; " +
 			"R4 every operation on the session table holds the table mutex (write mode for insert/delete), the session close is never called with the table mutex held, and the exit closure deletes exactly the entry it was created for; " +
 			"R5 datagrams are dispatched to the entry found (or created) under the datagram's own session ID and inserted under that ID, replies are read from the receiver's own socket, carry the receiver's ID and the bytes just read, and leave through the IO the entry was created with (the manager's); " +
-			"R6 the reply loop closes the session before every return and can leave on a read error; the manager loop can leave on a receive error, closes all sessions and stops the sweeper on every exit; the sweeper observes the stop channel and returns; the sweep selects an entry only over the `now - Last > idleTimeout` edge while the exit cleanup selects every entry; Last is refreshed with time.Now() before every forwarded datagram and between every socket read and its reply; " +
+			"R6 the reply loop closes the session before every return and can leave on a read error; the manager loop can leave on a receive error, closes all sessions and stops the sweeper on every exit; the sweeper observes the stop channel and returns; the sweep selects an entry only over the `now - Last > idleTimeout` edge while the exit cleanup selects every entry; Last is refreshed with time.Now() before every forwarded datagram and between every socket read and its reply; the exit cleanup reaches its table scan on every path (an early return is accepted only behind a test of the table itself); R10 AtomicTime.Set stores the instant it is given and never a rounding of it; " +
 			"R7 the only goroutine roots of the session code are the reply loop (started after the socket is stored, on every such path) and the sweeper (handed the channel the manager closes).",
 		NotDecided: []string{
 			"timing bounds (closed within one sweep interval; the sweep period itself)",
@@ -835,6 +835,30 @@ func (s *c07sel) selectsAll(k *bool) bool {
 	return true
 }
 
+// scanReached: the table scan of the selector is reached on every path from
+// the entry of its function: a return before the first Next is accepted only
+// behind a test computed from the table itself (`len(m.m) == 0`).  A "cleanup
+// already running" guard makes the final close-all a no-op for the caller that
+// loses the race.
+func (x *c07ctx) scanReached(s *c07sel, k *bool) bool {
+	fromTable := func(cond ssa.Value, pol bool) bool {
+		for v := range deps(cond, depOpts{throughCalls: true}) {
+			if isLoadOfField(v, x.fM) {
+				return true
+			}
+		}
+		return false
+	}
+	for _, in := range reachFrom(s.fn, nil, func(in ssa.Instruction) bool { return in == ssa.Instruction(s.next) }, s.infeasible(k)) {
+		if ret, isRet := in.(*ssa.Return); isRet && ret.Block() != s.fn.Recover {
+			if !guardedBy(ret, fromTable) {
+				return false
+			}
+		}
+	}
+	return true
+}
+
 // idleAge: v = now.Sub(entry.Last.Get()) or time.Since(entry.Last.Get()).
 func (x *c07ctx) idleAge(v ssa.Value, entry ssa.Value) bool {
 	call, ok := resolve(v).(*ssa.Call)
@@ -960,6 +984,7 @@ func checkC07(c *Check) {
 	lockBalanceRule(c, "C07", pServer)
 	c07Extra(c)
 	c07AtomicFlag(c)
+	c07ClockLossless(c)
 	p := c.P
 	x := &c07ctx{c: c, p: p, la: p.Locks(), closeFns: map[*ssa.Function]*ssa.Store{}, selMemo: map[*ssa.Function]*c07sel{}, keySeen: map[string]int{}}
 	x.entT = p.Named(pServer, "udpSessionEntry")
@@ -2077,10 +2102,10 @@ func (x *c07ctx) r6r7() {
 					}
 				}
 			}
-			return s.selectsAll(k)
+			return s.selectsAll(k) && x.scanReached(s, k)
 		}
 		exits := exitsReachableAvoiding(run, nil, func(in ssa.Instruction) bool { return c07evOrDeferredClosure(in, closesAll) })
-		c.Req(len(exits) == 0, key+":closes-all-sessions", r6, p.Pos(run.Pos()), "the manager loop can return without a cleanup that selects every remaining session (their sockets, reply loops and table entries outlive the client connection)")
+		c.Req(len(exits) == 0, key+":closes-all-sessions", r6, p.Pos(run.Pos()), "the manager loop can return without a cleanup that selects every remaining session, or that cleanup can return before it scans the table for a reason other than the table's own content, e.g. a \"pass already running\" guard (their sockets, reply loops and table entries outlive the client connection)")
 		// sweeper gets a channel that is closed on every exit
 		for _, gs := range sweepGos {
 			if gs.g.Parent() != run {
